@@ -513,8 +513,7 @@ class Lattice(keras.layers.Layer):
       them. In graph mode returns `assign_add` op which has to be executed to
       updates weights.
     """
-    return self.kernel.assign_add(
-        self._final_constraints(self.kernel) - self.kernel)
+    return self.kernel.assign(self._final_constraints(self.kernel))
 
   def assert_constraints(self, eps=1e-6):
     """Asserts that weights satisfy all constraints.
